@@ -11,6 +11,27 @@ R = "tracing_appender::rolling::"
 KIND = {0: "Minutely", 1: "Hourly", 2: "Daily", 3: "Never"}
 
 
+def r6_create_writer(ck, F):
+    b = F.body(R + "create_writer")
+    if not ck.anchor("C16.R6", "create_writer", b):
+        return
+    key = "create_writer: when the open fails, the parent directory is created and the file opened again"
+    rows = []
+    for p in PathEval(b).run():
+        if p.end != "return":
+            continue
+        ms = [c[1].get("method") for c in p.calls]
+        failed = [c[1] for c in p.conds if show(c[0]).startswith("is_err(open(") or show(c[0]).startswith("discr(open(") or show(c[0]).startswith("is_ok(open(")]
+        rows.append((ms.count("open"), "create_dir_all" in ms, [show(c[0])[:30] for c in p.conds][:1]))
+    retried = any(n >= 2 and d for n, d, _ in rows)
+    first_ok = any(n == 1 and not d for n, d, _ in rows)
+    if retried and first_ok:
+        ck.ok("C16.R6", key, fn=b.path, detail=len(rows))
+    else:
+        ck.bad("C16.R6", key, where(b.raw["sp"]), "paths (opens, creates the directory): %s -- the log directory is only ever created at start-up: if it is removed while the appender "
+               "runs, the next rotation cannot create its file, the rollover time has already advanced, and every later write goes to the unlinked old file" % [(n, d) for n, d, _ in rows], fn=b.path)
+
+
 def run(ck):
     F = Facts("default")
     ck.configs.append("default")
@@ -26,6 +47,8 @@ def run(ck):
     ck.rule("C16.R1", "rotation tables: step, rounding and file-name granularity agree per kind", floor=4)
     ck.rule("C16.R2", "one elected rotator; rotate iff now >= next_date; same steps on both write paths (debug and release builds)", floor=10)
     ck.rule("C16.R3", "log files are opened with append+create and never truncated", floor=1)
+    ck.rule("C16.R6", "a rotation can always open its period's file while the path is creatable: create_writer re-creates a missing log directory and opens again, "
+            "so the writes of the new period are not left in a file that no longer has a name", floor=1)
     ck.rule("C16.R5", "rolling::Builder methods keep every other option (same-named field carry-over)", floor=4)
     ck.rule("C16.R4", "prune only before creating the next file, oldest first, only the appender's files", floor=4)
     r1(ck, F)
@@ -39,6 +62,7 @@ def run(ck):
     ck.tag = ""
     from rulekit.query import builder_carry_over
     builder_carry_over(ck, F, "C16.R5", ("tracing_appender::rolling::builder::",))
+    r6_create_writer(ck, F)
 
 
 def kind_rows(F, name):
